@@ -57,7 +57,11 @@ impl Rewrite<MetaVariable> {
       .iter()
       .filter_map(|id| rewriters.get(id)) // NOTE: rewriter must be defined
       .collect();
-    let edits = find_and_make_edits(nodes, &rules, ctx);
+    let mut edits = find_and_make_edits(nodes, &rules, ctx);
+    // a rewriter's expandStart/expandEnd can reach outside of the captured text,
+    // which is all we can rewrite here: ignore such edits instead of slicing out of range
+    let end = start + bytes.len();
+    edits.retain(|e| e.position >= start && e.position + e.deleted_length <= end);
     let rewritten = if let Some(joiner) = &self.join_by {
       let mut ret = vec![];
       let mut edits = edits.into_iter();
